@@ -10,7 +10,7 @@
 From Coq Require Import List NArith.
 From Coq.Strings Require Import Byte.
 From GM Require Import Codec.Packet Codec.WF Codec.Enc Codec.WireSpec Codec.Dec Codec.EncProofsSpec Codec.EncProofsTop
-  Codec.EncProofsRoundTrip.
+  Codec.EncProofsRoundTrip Codec.EncJudge Codec.EncJudgeProofs.
 Import ListNotations.
 Open Scope N_scope.
 
@@ -73,6 +73,29 @@ Proof.
   rewrite (len_go_total_len p W). exact (roundtrip p W).
 Qed.
 Print Assumptions C01_encode_decode.
+
+(* the judges the check evaluates on the implementation's OBSERVED behaviour (Codec/EncJudge.v:
+   len_is_written, len_spec, encode_total, layout, dirty, short, wire_exact, roundtrip) all hold
+   of the model's own behaviour — for every packet, fill byte, extra capacity, list of short
+   capacities and prior pool content.  A judge failing on the implementation is therefore a
+   clause of this property failing on a concrete input. *)
+Theorem C01_judges_sound : forall p fill extra caps prior,
+  all_judges p (model_obs p fill extra caps prior) = true.
+Proof. exact model_passes. Qed.
+Print Assumptions C01_judges_sound.
+
+(* … likewise the judge for several packets through one stream encoder … *)
+Theorem C01_stream_judge_sound : forall pps : list (packet * bytes),
+  j_stream (map fst pps)
+    (concat (map (fun pp => match encoder_write (snd pp) (fst pp) with XSent b => b | _ => [] end) pps)) = true.
+Proof. exact model_stream. Qed.
+Print Assumptions C01_stream_judge_sound.
+
+(* … and the judge for encodeHeader alone, for every type, flags, remaining length, tl, buffer *)
+Theorem C01_header_judge_sound : forall t flags rl tl dst,
+  j_header t flags rl tl (blen dst) (finish (encode_header dst flags rl tl t)) = true.
+Proof. exact model_header. Qed.
+Print Assumptions C01_header_judge_sound.
 
 (* non-vacuity: one well-formed packet per shape, including a 16384-byte remaining length,
    and concrete wire bytes *)
